@@ -39,9 +39,7 @@ def updater_facts(f):
     return facts
 
 
-def run(ctx):
-    prog = ctx.prog
-    eff = Effects(prog)
+def peak_facts(ctx, prog):
     ctx.rule('PEAK-FACTS', 'both peak updaters: for (chan = 0 ; chan < channels ; chan++) / for (k = chan ; k < count ; k += channels); scan comparison strict `<`; stored-peak update strict `>`; '
              'position = write_current + indx + position / channels; value = the scanned maximum; siblings agree', floor=12)
     fu = {}
@@ -56,6 +54,13 @@ def run(ctx):
     a, b = fu['float32_peak_update'], fu['double64_peak_update']
     same = all(a.get(k) == b.get(k) for k in ('outer_cond', 'inner_init', 'inner_cond', 'inner_inc', 'scan_cmp', 'update_cmp', 'position'))
     ctx.ob('PEAK-FACTS', 'siblings', same, 'src/float32.c', 'float32 and double64 updaters agree' if same else 'updaters DIFFER: %s vs %s' % (a, b), None)
+
+
+
+def run(ctx):
+    prog = ctx.prog
+    eff = Effects(prog)
+    peak_facts(ctx, prog)
 
     ctx.rule('PEAK-CALL', 'every call of a peak updater from a chunked write loop passes the chunk just converted, its length, and the chunk offset in frames `total / psf->sf.channels`; it dominates the '
              'byte swap and the psf_fwrite of that chunk; unchunked callers pass (ptr, len, 0)', floor=14)
